@@ -247,6 +247,9 @@ func runC17(c *Check) {
 				"Ready does not touch nextMessageID after the ready message was handed to the connection", "Ready writes nextMessageID after the send: it overwrites the increments made for notifications that were delivered meanwhile, so the reported id is no longer last delivered + 1")
 		}
 	}
+	c.ruleFreshEnvelopePerMessage("R6")
+	c.ruleNoGoroutineOnNotificationPath("R7")
+	c.ruleQueuedOnlyOnSend("R2", fChan)
 }
 
 // ---------------------------------------------------------------------------------------------
@@ -564,6 +567,8 @@ func runC18(c *Check) {
 	}
 
 	c.ruleFreshHandshakeChannel("R7")
+	c.ruleFreshSessionPerConnect("R3", fHash)
+	c.ruleHandshakeCompleteAfterReadyWritten("R8", fHSC, c.P.Field("client", "RemoteClient", "handshakeCompleteChannel"))
 
 	// ---- R5 IsHandshakeType table
 	if fd := findFuncDecl(p, "", "IsHandshakeType"); fd != nil {
